@@ -137,11 +137,8 @@ def random_roundtrips(rng, n_events, rep, depth_extremes=False):
         rep.violation(f"round-trip event rejected by Trace_Codec (ser={obs[i].get('res')}, de={obs[i].get('de', {}).get('res')})",
                       {"fam": "ser_de", "cmd": cmds[i]}, expected="SerAllowed and decoded = denoted value (Trace_Codec.tla)", observed=obs[i])
     traces = codec.validate_events("Trace_Codec", "Trace_Codec.cfg", events, scope_path, rej)
-    for ev in events:
-        if ev["res"] == "ok" and ev["de"]["res"] == "ok" and ev["de"]["consumed"] > 0:
-            codec.binding_check("Trace_Codec", "Trace_Codec.cfg", ev,
-                                lambda e: dict(e, de=dict(e["de"], consumed=e["de"]["consumed"] + 1)), scope_path)
-            break
+    codec.binding_check_some("Trace_Codec", "Trace_Codec.cfg", (ev for ev in events if ev["res"] == "ok" and ev["de"]["res"] == "ok" and ev["de"]["consumed"] > 0),
+                             lambda e: dict(e, de=dict(e["de"], consumed=e["de"]["consumed"] + 1)), scope_path)
     return {"traces": traces, "events": len(events), "samples": [events[0], events[len(events) // 2]]}
 
 
